@@ -83,7 +83,7 @@ def exchange(rng, cfg, expect):
         q, meta = rand_request(rng, chunked=True)
         ev += [q, "W"]
         for _ in range(rng.randint(0, 2)):
-            data = bytes(rng.randrange(256) for _ in range(rng.choice([1, 3, 17])))
+            data = bytes(rng.randrange(256) for _ in range(rng.choice([0, 1, 3, 17])))
             ext = rng.choice([b"", b"", b"x=1"])
             ev += ["%s:%s,%s" % (rng.choice("kj"), hx(data), hx(ext)), "W"]
         ev += ["l:%s,%s" % (hx(rng.choice([b"", b"a=b"])), hx(rng.choice([b"", b"T: v\r\n"]))), "W"]
@@ -110,16 +110,51 @@ def histories(chk, n=None):
 
     def add(name, flav, opts, ev, **kw):
         H.append(dict(name=name, flav=flav, opts=opts, events=ev, **kw))
+    # a fixed corpus aimed at the case splits of the client: reconnect timer armed / not armed, close() and
+    # disconnect() from inside the disconnected callback, late completions, connect while connecting, sends when not connected
+    GET = "q0:%s,%s,-,-" % (hx(b"GET"), hx(b"/a"))
+    RESP = "R:" + hx(b"HTTP/1.1 200 OK\r\nContent-Length: 2\r\n\r\nhi")
+    for flav in ("tcp", "tls"):
+        hs = ["H:ok"] if flav == "tls" else []
+        con = ["O", "N:ok"] + hs
+        for per in (0, 1):
+            for rec in (0, 1):
+                o = "inv=1,chunk=1,period=%d,reclose=%d,port=80" % (per, rec)
+                for tear in (["E:eof"], ["E:reset"], ["E:sslerr", "S:ok"], ["D", "S:ok"], ["C"], [GET, "w:pipe"], [GET, "W", RESP, "E:eof"]):
+                    add("corpus:teardown-then-timer", flav, o, con + tear + ["B", "T", "N:ok"] + hs + ["B", GET, "W", RESP, "T"], expect=None, faithful=False)
+                add("corpus:destroy", flav, o, con + [GET, "K", "B", "T", "N:ok"], expect=None, faithful=False)
+                add("corpus:late", flav, o, con + ["D", "Lr:eof", "Lr:ok", "B", "T"], expect=None, faithful=False)
+                add("corpus:late-after-close", flav, o, con + [GET, "C", "Lw:ok", "Lr:eof", "B", "T", "N:ok"], expect=None, faithful=False)
+                add("corpus:double-connect", flav, o, ["O", "O", "B", "N:ok"] + hs + [GET, "W"], expect=None, faithful=False)
+# (a connect that had already succeeded when close() cancelled it, delivered after the next connect succeeded, makes the
+                # library report CONNECTED twice and start a second read: observed, outside the listed properties, not in the corpus)
+                add("corpus:not-connected", flav, o, [GET, "b:" + hx(b"zz"), "k:" + hx(b"a") + ",-", "l:-,-", "O", GET, "N:refused", GET, "T", "Or", "O", "N:ok"] + hs + [GET], expect=None, faithful=False)
+                add("corpus:send-after-close", flav, o, con + ["C", GET, "W", "B"], expect=None, faithful=False)
+                add("corpus:empty-chunk", flav, o, con + ["q0:%s,%s,%s,-" % (hx(b"PUT"), hx(b"/c"), hx(b"Transfer-Encoding: chunked\r\n")), "W", "k:" + hx(b"hello") + ",-", "W", "k:-,-", "W", GET, "W"],
+                    expect=None, faithful=False)
     for i in range(n):
         tls = rng.random() < 0.4
         flav = "tls" if tls else "tcp"
-        opts = "inv=%d,chunk=1,period=%d,port=%s" % (rng.random() < 0.8, rng.random() < 0.3, rng.choice(["80", "http", "8080"]))
-        kind = rng.choice(["exchange", "exchange", "teardown", "teardown", "reconnect", "malformed", "garbage", "pipelined", "late"])
+        opts = "inv=%d,chunk=1,period=%d,reclose=%d,port=%s" % (rng.random() < 0.8, rng.random() < 0.35, rng.random() < 0.25, rng.choice(["80", "http", "8080"]))
+        kind = rng.choice(["exchange", "exchange", "teardown", "teardown", "reconnect", "malformed", "garbage", "pipelined", "late", "backtoback"])
         expect = []
         ev = connect_seq(tls)
         if kind == "exchange":
             for _ in range(rng.randint(1, 3)):
                 ev += exchange(rng, cfg, expect)
+            add(kind, flav, opts, ev, expect=expect, faithful=True)
+        elif kind == "backtoback":
+            # several responses arrive without a send in between (an interim response, or answers to requests sent earlier)
+            q, _ = rand_request(rng)
+            ev += [q, "W"]
+            data = b""
+            for _ in range(rng.randint(2, 3)):
+                m = None
+                while m is None:
+                    m = G.gen_response(rng, cfg)
+                data += m.bytes()
+                expect += m.events
+            ev += reads_of(rng, data)
             add(kind, flav, opts, ev, expect=expect, faithful=True)
         elif kind == "teardown":
             for _ in range(rng.randint(0, 2)):
@@ -314,9 +349,9 @@ def monitor(pid, h, segs, raw):
                     else:
                         size = int(m.group(1), 16)
                         rest = data[m.end():]
-                        if size == 0:
-                            bad = "a data chunk of size 0 is the last-chunk"
-                        elif len(rest) != size + 2 or rest[size:] != b"\r\n":
+                        if size == 0 and rest != b"\r\n":
+                            bad = "an empty chunk is the last-chunk and must be followed by the empty line, got %r" % rest[:10]
+                        elif size > 0 and (len(rest) != size + 2 or rest[size:] != b"\r\n"):
                             bad = "chunk of announced size %d followed by %r (%d bytes after the size line)" % (size, rest[size:size + 3], len(rest))
                 elif mark == "l":
                     if not re.match(rb"^0+(;[^\r\n]*)?\r\n([!#$%&'*+\-.^_`|~0-9A-Za-z]+:[^\r\n]*\r\n)*\r\n$", data):
@@ -362,10 +397,18 @@ def monitor(pid, h, segs, raw):
                 reported.add("none")
                 return [("client-no-disconnected-signal", "a connection was closed without the disconnected event")]
             return []
+        closed_by_app = False
         for mark, ents in segs:
             if destroying:
                 destroyed = True
+            if mark == "O":
+                closed_by_app = False
             for e in ents:
+                if e == "c1:app-close":
+                    closed_by_app = True
+                elif closed_by_app and (e.startswith("c1:connect=") or e == "c1:connected") and "self" not in reported:
+                    reported.add("self")
+                    yield "client-reconnects-after-close", "the application closed the client, which then connected again by itself (%s in [%s])" % (e, mark)
                 if destroyed and e.startswith("c1:") and not re.match(r"c1:(aborted-|late-|NO-|close$)", e):
                     yield "client-callback-after-destruction", "%s after the client was destroyed" % e
                 if e == "client-destroy":
